@@ -585,6 +585,11 @@ func (fr *Frame) evalCall(e *CExpr, env *Env, hint *Sort) *GVal {
 			return tv(g.Fresh)
 		}
 		return tv(TFalse)
+	case "mapHas":
+		m := arg(0, nil)
+		if mi := w.MapInfoOfSort(m.S); mi != nil {
+			return tv(Select(w.MpDom(m), arg(1, mi.K)))
+		}
 	case "kindOf":
 		return tv(App("kindOf", SInt, arg(0, SVal)))
 	case "same":
